@@ -26,13 +26,20 @@ func InitGenesis(ctx sdk.Context, k keeper.Keeper, data types.GenesisState) {
 			panic(fmt.Errorf("unknown servcie request context: %s", entry.Feed.RequestContextID))
 		}
 
-		for _, value := range entry.Values {
+		// the values are exported newest first and do not carry the batch counter they were stored under:
+		// give each a key of its own, the newest the context's current batch counter, so that the whole
+		// history survives and later batches (larger counters) append after it
+		newest := reqCtx.BatchCounter
+		if n := uint64(len(entry.Values)); newest+1 < n {
+			newest = n - 1
+		}
+		for i := len(entry.Values) - 1; i >= 0; i-- {
 			k.SetFeedValue(
 				ctx,
 				entry.Feed.FeedName,
-				reqCtx.BatchCounter,
+				newest-uint64(i),
 				entry.Feed.LatestHistory,
-				value,
+				entry.Values[i],
 			)
 		}
 
